@@ -618,8 +618,15 @@ class Share:
                 # They might be asking for a segment number that is beyond
                 # what we guess the file contains, but _desire_block_hashes
                 # and _desire_data will tolerate that.
-                self._desire_block_hashes(desire, o, segnum)
-                self._desire_data(desire, o, r, segnum, segsize)
+                d2 = desire
+                if not self._node.have_UEB:
+                    # until the UEB tells us the real number of segments, the
+                    # segnum and the shape of the block hash tree are guesses:
+                    # what they point at is merely wanted, never needed (it
+                    # may lie beyond the end of the share)
+                    d2 = (want_it, want_it, gotta_gotta_have_it)
+                self._desire_block_hashes(d2, o, segnum)
+                self._desire_data(d2, o, r, segnum, segsize)
 
         log.msg("end _desire: want_it=%s need_it=%s gotta=%s"
                 % (want_it.dump(), need_it.dump(), gotta_gotta_have_it.dump()),
